@@ -63,6 +63,9 @@ type PFCPConn struct {
 	// shutdownOnce guards Shutdown(), which can be triggered concurrently
 	// (release request, read timeout, heartbeat failure, node stop)
 	shutdownOnce sync.Once
+	// handlerMu serialises the handling of incoming messages with the session
+	// cleanup done by Shutdown(), which runs on other goroutines
+	handlerMu sync.Mutex
 
 	metrics.InstrumentPFCP
 
@@ -246,6 +249,11 @@ func (pConn *PFCPConn) doShutdown() {
 		pConn.hbCtxCancel()
 		pConn.hbCtxCancel = nil
 	}
+
+	// Wait for a message that is being handled: it may still create or modify
+	// a session, which would otherwise survive the cleanup below.
+	pConn.handlerMu.Lock()
+	defer pConn.handlerMu.Unlock()
 
 	// Cleanup all sessions in this conn
 	for _, sess := range pConn.store.GetAllSessions() {
